@@ -36,7 +36,7 @@ def one_run(sys_seed, np_seed, niter, opts, kind, tmp):
     test_set = None
     if opts['test_set']:
         rs = np.random.RandomState(sys_seed)
-        nt = 1200 if opts['test_set'] == 'large' else 6      # a large test set must be treated like a small one (no subsampling from the global stream)
+        nt = {'large': 1200, 'huge': 6500}.get(opts['test_set'], 6)      # a large test set must be treated like a small one (no subsampling from the global stream)
         xt = {str(v): rs.rand(nt) * (v.get_domain()[1] - v.get_domain()[0]) + v.get_domain()[0] for v in system.inputs()}
         yt = system.predict(xt, use_model='best', normalized_inputs=False)
         test_set = (xt, {k: np.asarray(v) for k, v in yt.items()})
@@ -100,6 +100,8 @@ def run(ctx: Ctx):
                                     f'without monitoring after {len(base_t["history"])}', case_t)
             if kind == 'chain':      # one more combination per chain system: a test set of more than a thousand samples
                 todo = todo + [{'test_set': 'large', 'save_interval': 0, 'plot_interval': 0, 'root_dir': False, 'log': 'none'}]
+                if n == 0:       # ... and once a test set of several thousand samples (start_test_check=1 so that it is evaluated from the first step on)
+                    todo = todo + [{'test_set': 'huge', 'save_interval': 0, 'plot_interval': 0, 'root_dir': False, 'log': 'none'}]
             for opts in todo:
                 case = {'system_seed': sys_seed, 'kind': kind, 'numpy_seed': np_seed, 'iterations': niter, 'options': opts}
                 ctx.case(case, nontrivial=True, kind=kind)
